@@ -38,7 +38,7 @@ def gen_elem(rnd, opt):
             if num and m[0] == 'attr' and m[2] is not None and rnd.random() < num: m[2] = m[2] + numtok()
             e['mentions'].append(tuple(m))
         rnd.shuffle(e['mentions'])
-    if rnd.random() < opt.get('p_text', .15):
+    if rnd.random() < opt.get('p_text', .15) and e['name'] not in VOID:
         t = rnd.choice(opt['text_pool'])
         if num and rnd.random() < num: t = t + ' ' + numtok()
         e['text'] = t
